@@ -134,16 +134,6 @@ func ZZ_C14_Regexps(sv *zzsv.T) {
 	}
 	sv.Assume(valid)
 	sv.Assume(rs[0] != '/') // `//` starts a comment
-	// known finding: a pattern that itself begins with an unclosed "(?" group
-	// (not a valid regexp) is re-split by the parser as if it were the flag
-	// prefix the lexer adds
-	if len(rs) >= 2 {
-		noClose := []bool{rs[0] == '(', rs[1] == '?'}
-		for i := 2; i < len(rs); i++ {
-			noClose = append(noClose, rs[i] != ')')
-		}
-		sv.Region("pattern_begins_with_unclosed_flag_group", sv.All(noClose...))
-	}
 	src := "x = /" + body + "/" + flags + ";"
 	sv.Note("script", src)
 	l := lexer.New(src)
